@@ -54,6 +54,32 @@ theorem sortLRU_perm (inv : List Row) : (sortLRU inv).Perm inv := by
   | nil => exact List.Perm.refl _
   | cons r rs ih => exact (insertLRU_perm r _).trans (List.Perm.cons r ih)
 
+theorem insertLRU_sorted (r : Row) (l : List Row) (h : l.Pairwise (fun a b => a.atime ≤ b.atime)) :
+    (insertLRU r l).Pairwise (fun a b => a.atime ≤ b.atime) := by
+  induction l with
+  | nil => simp [insertLRU]
+  | cons x xs ih =>
+    rw [List.pairwise_cons] at h
+    simp only [insertLRU]
+    split
+    · next hlt =>
+      rw [List.pairwise_cons]
+      refine ⟨fun y hy => ?_, ih h.2⟩
+      rcases List.mem_cons.mp ((insertLRU_perm r xs).mem_iff.mp hy) with rfl | hy'
+      · omega
+      · exact h.1 y hy'
+    · next hge =>
+      rw [List.pairwise_cons]
+      refine ⟨fun y hy => ?_, List.pairwise_cons.mpr h⟩
+      rcases List.mem_cons.mp hy with rfl | hy'
+      · omega
+      · have := h.1 y hy'; omega
+
+theorem sortLRU_sorted (inv : List Row) : (sortLRU inv).Pairwise (fun a b => a.atime ≤ b.atime) := by
+  induction inv with
+  | nil => exact List.Pairwise.nil
+  | cons r rs ih => exact insertLRU_sorted r _ ih
+
 theorem mem_sortLRU_filter (l : List Row) (p : Row → Bool) (x : Row) :
     x ∈ (sortLRU l).filter p ↔ x ∈ l.filter p := by
   simp only [List.mem_filter, (sortLRU_perm l).mem_iff]
@@ -126,6 +152,11 @@ structure EvictFacts (ord inv : List Row) (now : Nat) (c : Cfg) (fs : FS) (res :
   exact : (∀ a ∈ res.attempts, a.res ≠ .err) →
     res.inv = inv.filter (fun x =>
       decide (x ∉ sizeSel ord inv c.maxSize) && !agedB (c.maxAge.map (now - ·)) x)
+  /-- the order of the `remove_file` calls: the size selection in LRU order, then rows that are too old,
+  oldest first -/
+  order : ∃ rest, res.attempts.map (·.row) = sizeSel ord inv c.maxSize ++ rest ∧
+    rest.Pairwise (fun a b => a.atime ≤ b.atime) ∧
+    (∀ x ∈ rest, x ∈ inv ∧ agedB (c.maxAge.map (now - ·)) x = true)
 
 theorem mem_map_rel_iff {inv sel : List Row} (hn : (inv.map (·.rel)).Nodup) (hs : ∀ y ∈ sel, y ∈ inv)
     {x : Row} (hx : x ∈ inv) : x.rel ∈ sel.map (·.rel) ↔ x ∈ sel := by
@@ -164,7 +195,16 @@ theorem evictCore_plain (ord inv : List Row) (now : Nat) (c : Cfg) (fs : FS) (G 
     apply List.filter_congr
     intro x _
     simp [Bool.and_comm]
-  refine ⟨rfl, ?_, ?_, hinv2, ?_, ?_, ?_, ?_⟩
+  refine ⟨rfl, ?_, ?_, hinv2, ?_, ?_, ?_, ?_, ?_⟩
+  rotate_right
+  · -- order
+    refine ⟨(sortLRU t1.2.1).filter (agedB (c.maxAge.map (now - ·))), ?_, ?_, ?_⟩
+    · show (t1.2.2 ++ t2.2.2).map (·.row) = _
+      rw [List.map_append, D1.rowsEq, D2.rowsEq]
+    · exact (sortLRU_sorted t1.2.1).filter _
+    · intro x hx
+      have h := List.mem_filter.mp ((mem_sortLRU_filter _ _ x).mp hx)
+      exact ⟨hsub1 x h.1, h.2⟩
   · -- good
     show Good t2.1 c.root t2.2.1
     rw [D2.inv]
@@ -302,27 +342,6 @@ theorem sumNat_filter_and_le (l : List Row) (p q : Row → Bool) :
   | cons x xs ih =>
     simp only [List.filter]
     cases hp : p x <;> cases hq : q x <;> simp only [Bool.and_false, Bool.and_true, sumNat] <;> omega
-
-theorem insertLRU_sorted (r : Row) (l : List Row) (h : l.Pairwise (fun a b => a.atime ≤ b.atime)) :
-    (insertLRU r l).Pairwise (fun a b => a.atime ≤ b.atime) := by
-  induction l with
-  | nil => simp [insertLRU]
-  | cons x xs ih =>
-    rw [List.pairwise_cons] at h
-    simp only [insertLRU]
-    split
-    · next hlt =>
-      rw [List.pairwise_cons]
-      refine ⟨fun y hy => ?_, ih h.2⟩
-      rcases List.mem_cons.mp ((insertLRU_perm r xs).mem_iff.mp hy) with rfl | hy'
-      · omega
-      · exact h.1 y hy'
-    · next hge =>
-      rw [List.pairwise_cons]
-      refine ⟨fun y hy => ?_, List.pairwise_cons.mpr h⟩
-      rcases List.mem_cons.mp hy with rfl | hy'
-      · omega
-      · have := h.1 y hy'; omega
 
 /-- the order used by the executable model is one of the orders the theorems quantify over -/
 theorem sortLRU_order (inv : List Row) : LruOrder (sortLRU inv) inv := by
